@@ -489,3 +489,72 @@ fn c07_a_finished_get_lookup_reports_the_secure_prefix_of_its_responders() {
     core::mem::forget(q);
     core::mem::forget(c);
 }
+
+// =============================================================================================
+// C14: the 5-minute round against the contract of the table iterator (a ghost sequence of nodes;
+// the iterator itself — a 160-step bucket scan — is written but unreached) and of remove()
+// =============================================================================================
+static mut IT_POS: u32 = 0;
+static mut IT_AGES: [u64; 2] = [0; 2];
+static mut REMOVED: [u8; 4] = [0; 4];
+static mut REMOVED_N: usize = 0;
+
+fn stub_iter_next(_it: &mut crate::common::RoutingTableIterator<'_>) -> Option<Node> {
+    unsafe {
+        let p = IT_POS;
+        IT_POS += 1;
+        match p {
+            // first table: two nodes, then the end; second table: nothing
+            0 => Some(crate::common::verif_kani::node::node_aged(id1(0x10), SocketAddrV4::new(11u32.into(), 11), IT_AGES[0])),
+            1 => Some(crate::common::verif_kani::node::node_aged(id1(0x20), SocketAddrV4::new(12u32.into(), 12), IT_AGES[1])),
+            _ => None,
+        }
+    }
+}
+fn stub_rt_remove(_t: &mut RoutingTable, id: &Id) {
+    unsafe {
+        if REMOVED_N < 4 {
+            REMOVED[REMOVED_N] = id.as_bytes()[0];
+        }
+        REMOVED_N += 1;
+    }
+}
+
+#[kani::proof]
+#[kani::unwind(6)]
+#[kani::stub(std::time::Instant::now, clock::mock_now)]
+#[kani::stub(std::time::Instant::elapsed, clock::mock_elapsed)]
+#[kani::stub(getrandom::fill, fill_const_memset)]
+#[kani::stub(<crate::common::RoutingTableIterator as Iterator>::next, stub_iter_next)]
+#[kani::stub(RoutingTable::remove, stub_rt_remove)]
+fn c14_maintenance_round_removes_the_stale_and_pings_the_quiet() {
+    let mut c = core(true);
+    let a0: u64 = kani::any();
+    let a1: u64 = kani::any();
+    kani::assume(a0 <= 2_000_000 && a1 <= 2_000_000);
+    unsafe { IT_AGES = [a0, a1] };
+    let to_ping = c.check_nodes_to_ping_and_remove_stale_nodes();
+    let stale0 = a0 > 900_000;
+    let stale1 = a1 > 900_000;
+    let removed_n = unsafe { REMOVED_N };
+    assert!(removed_n == (if stale0 { 1 } else { 0 }) + (if stale1 { 1 } else { 0 }), "C14: exactly the nodes not heard from for more than 15 minutes are removed");
+    if stale0 {
+        assert!(unsafe { REMOVED[0] } == 0x10);
+    }
+    if stale1 {
+        assert!(unsafe { REMOVED[removed_n - 1] } == 0x20);
+    }
+    let ping0 = !stale0 && a0 > 10_000;
+    let ping1 = !stale1 && a1 > 10_000;
+    assert!(to_ping.len() == (if ping0 { 1 } else { 0 }) + (if ping1 { 1 } else { 0 }), "C14: exactly the remaining nodes quiet for more than 10 s are pinged (a stale node is removed, not pinged)");
+    if ping0 {
+        assert!(to_ping[0].port() == 11);
+    }
+    if ping1 {
+        assert!(to_ping[to_ping.len() - 1].port() == 12);
+    }
+    kani::cover!(stale0 && ping1);
+    kani::cover!(!stale0 && !ping0 && stale1);
+    core::mem::forget(to_ping);
+    core::mem::forget(c);
+}
